@@ -24,6 +24,9 @@ from engine.norm import same_modulo_names
 from .common import resolve_call
 from .pairing_rules import check_coindex, check_scatter, check_retpair, check_tuple_scatter, pairing
 from .c02 import effects_for
+from .sem import expander, ctext, want, xt, cond_want, conds_at, bind, calls, returns, stmt_of, self_attr_value_texts, defs_texts, guarded_values, gather_alternatives
+from engine.guards import cond_text
+from engine import norm as _norm
 
 RULES = {
     "C08.a": "features, targets and weights given to a bucket's model are gathered with the same mask value; the mask is association == i for the task's own i",
@@ -38,30 +41,50 @@ MOD = "mlinsights.mlmodel.piecewise_estimator"
 
 def check_a(ck, repo):
     fi = repo.func(MOD, "_fit_piecewise_estimator")
-    n = check_coindex(ck, "C08.a", repo, fi, methods={"fit"}, min_args=3)
-    if n == 0:
-        ck.violated("C08.a", fi, "model.fit(Xi, yi, sample_weight=sw)", "the local model is no longer fitted on mask-selected X, y, sample_weight: rows, targets and weights of a bucket are not kept together")
-    # the mask is association == <task id parameter>
+    ex = expander(repo)
     params = fi.named_params
-    first = params[0] if params else None
-    defs = [s for s in own_nodes(fi.node) if isinstance(s, ast.Assign) and len(s.targets) == 1 and isinstance(s.targets[0], ast.Name) and s.targets[0].id == "ind"]
-    defs.sort(key=lambda s: s.lineno)
-    if not defs:
-        ck.unknown("C08.a", fi, "ind = association == i", "mask definition not found")
-    else:
-        d = defs[0]
-        ok = isinstance(d.value, ast.Compare) and len(d.value.ops) == 1 and isinstance(d.value.ops[0], ast.Eq) and {src_of(d.value.left), src_of(d.value.comparators[0])} == {"association", first}
-        ck.verdict(ok, "C08.a", fi, d, f"bucket mask selects association == {first} (the task's own bucket id)", f"the mask is {src_of(d.value)}, not association == {first}: the model of bucket {first} is trained on other rows")
-        for d2 in defs[1:]:
-            ok2 = src_of(d2.value) in ("ind.copy()", "numpy.array(ind)", "numpy.copy(ind)")
-            ck.verdict(ok2, "C08.a", fi, d2, "borrowing block works on a copy of the mask", "the mask is rebound to something else than a copy of itself before examples are borrowed")
-    # weights are optional: sw is either the gathered weights or None
-    # the call fits `model` (the clone handed to the task)
-    fits = [c for c in own_nodes_incl_lambda(fi.node) if isinstance(c, ast.Call) and isinstance(c.func, ast.Attribute) and c.func.attr == "fit"]
+    p_i, p_model, p_X, p_y, p_sw, p_assoc = params[:6]
+    fits = calls(fi, lambda c: isinstance(c.func, ast.Attribute) and c.func.attr == "fit")
+    if not fits:
+        ck.violated("C08.a", fi, "model.fit(Xi, yi, sample_weight=sw)", "the local model is no longer fitted in the task")
+    own_mask = want(repo, f"{p_assoc} == {p_i}", fi, fi.node.body[-1])
     for c in fits:
-        ck.verdict(isinstance(c.func.value, ast.Name) and c.func.value.id == params[1], "C08.a", fi, f"{src_of(c.func)}(...)", "the estimator handed to the task is the one fitted", "the task fits another object than the clone it was given")
-        sw = kwarg(c, "sample_weight")
-        ck.verdict(sw is not None or len(c.args) >= 3, "C08.a", fi, f"sample_weight={src_of(sw) if sw is not None else None}", "bucket weights are forwarded", "sample weights are not forwarded to the bucket's model")
+        ck.verdict(isinstance(c.func.value, ast.Name) and c.func.value.id == p_model, "C08.a", fi, f"{src_of(c.func)}(...)", "the estimator handed to the task is the one fitted", "the task fits another object than the clone it was given")
+        b = bind(c, ["X", "y", "sample_weight"])
+        if set(b) != {"X", "y", "sample_weight"}:
+            ck.violated("C08.a", fi, c, f"the local model is fitted with {sorted(b)}: features, targets and weights of the bucket are not all forwarded")
+            continue
+        alts = {k: gather_alternatives(repo, fi, v, c) for k, v in b.items()}
+        bases = {k: {a[1] for a in v} for k, v in alts.items()}
+        ck.verdict(bases == {"X": {p_X}, "y": {p_y}, "sample_weight": {p_sw}}, "C08.a", fi, f"{src_of(c)}: sources", "features, targets and weights are taken from the task's X, y, sample_weight", f"the arguments of fit are selected from {bases}, not from ({p_X}, {p_y}, {p_sw})")
+        sel = {k: {(a[0], a[2], a[3]) for a in v} for k, v in alts.items()}
+        same = sel["X"] == sel["y"] == sel["sample_weight"] and all(a[2] is not None for v in alts.values() for a in v)
+        if same:
+            ck.holds("C08.a", fi, c, f"X, y and sample_weight are selected by the same row index on each of the {len(sel['X'])} branch(es)")
+        else:
+            ck.violated("C08.a", fi, c, f".fit(): X is selected with {sorted(x[1] for x in sel['X'])} but y with {sorted(x[1] for x in sel['y'])} and sample_weight with {sorted(x[1] for x in sel['sample_weight'])} (same branch, same definition of the index required): features, targets and weights of a row are no longer kept together")
+        # every selection index is the task's own bucket mask, or a copy of it to which borrowed rows were added
+        for conds, base, rows, leaves in alts["X"]:
+            if rows == own_mask:
+                ck.holds("C08.a", fi, f"mask {rows}", f"bucket mask selects {p_assoc} == {p_i} (the task's own bucket id)")
+                continue
+            okm = False
+            why = f"the rows are selected by {rows}, not by {p_assoc} == {p_i}"
+            try:
+                r = ast.parse(rows, mode="eval").body
+            except SyntaxError:
+                r = None
+            if isinstance(r, ast.Name):
+                ds = [tx for _, tx in defs_texts(repo, fi, r.id)]
+                copies = {own_mask, f"({own_mask}).copy()", f"numpy.copy({own_mask})", f"numpy.array({own_mask})"}
+                okd = bool(ds) and all(d in copies for d in ds)
+                # element stores into the mask only add rows
+                stores = [x for x in own_nodes(fi.node) if isinstance(x, ast.Assign) and any(isinstance(t, ast.Subscript) and src_of(t.value) == r.id for t in x.targets)]
+                oks = all(src_of(x.value) == "True" for x in stores)
+                aug = [x for x in own_nodes(fi.node) if isinstance(x, ast.AugAssign) and src_of(x.target).split("[")[0] == r.id]
+                okm = okd and oks and not aug
+                why = f"the mask {r.id} is defined as {ds}" + ("" if oks and not aug else " and rows are removed from / combined into it")
+            ck.verdict(okm, "C08.a", fi, f"mask {rows}", "the mask is the task's own bucket mask, or a copy of it to which borrowed rows are added", f"{why}: the model of bucket {p_i} is trained on other rows than its bucket's")
 
 
 def _parallel_sites(fi: FunctionInfo):
@@ -76,62 +99,77 @@ def _parallel_sites(fi: FunctionInfo):
     return out
 
 
+def _strip_progress(x: ast.AST) -> ast.AST:
+    """tqdm(range(n)) -> range(n): a progress bar yields the items of its argument"""
+    if isinstance(x, ast.Call) and ast.unparse(x.func).split(".")[-1] in ("tqdm", "trange", "list", "iter") and x.args:
+        return _strip_progress(x.args[0])
+    return x
+
+
 def check_b(ck, repo):
     ci = repo.cls(MOD, "PiecewiseEstimator")
     fit = ci.methods["fit"]
-    # one clone per mapping entry
-    est = [s for s in own_nodes(fit.node) if isinstance(s, ast.Assign) and len(s.targets) == 1 and src_of(s.targets[0]) == "estimators"]
-    if len(est) != 1:
-        ck.unknown("C08.b", fit, "estimators = [...]", "definition of the per-bucket estimators not found")
-    else:
-        v = est[0].value
-        ok = isinstance(v, ast.ListComp) and src_of(v.elt) == "clone(self.estimator)" and len(v.generators) == 1 and src_of(v.generators[0].iter) in ("self.mapping_", "range(len(self.mapping_))", "self.mapping_.values()", "self.mapping_.keys()", "self.mapping_.items()") and not v.generators[0].ifs
-        ck.verdict(ok, "C08.b", fit, est[0], "one clone of the local estimator per bucket of the mapping", "the list of local models is not one clone per mapping entry")
+    ex = expander(repo)
     sites = _parallel_sites(fit)
     if len(sites) != 1:
         ck.unknown("C08.b", fit, "Parallel(...)(delayed(_fit_piecewise_estimator)(...))", f"{len(sites)} parallel sites in fit")
     else:
         c, gen, inner, f = sites[0]
+        st = enclosing_stmt(c)
         lv = src_of(gen.generators[0].target)
         it = gen.generators[0].iter
-        a = [src_of(x) for x in inner.args]
-        ck.verdict(src_of(f) == "_fit_piecewise_estimator", "C08.b", fit, f"delayed({src_of(f)})", "tasks run _fit_piecewise_estimator", "tasks run another function")
-        ck.verdict(len(a) >= 2 and a[0] == lv and a[1] == f"estimators[{lv}]", "C08.b", fit, f"task args ({', '.join(a[:2])}, ...)", f"task {lv} trains estimators[{lv}] on bucket {lv}", "the estimator handed to a task does not have the index of the bucket it is trained on")
-        # the loop covers range(len(estimators))
-        loop_src = None
-        if isinstance(it, ast.Name):
-            for s in own_nodes(fit.node):
-                if isinstance(s, ast.Assign) and len(s.targets) == 1 and src_of(s.targets[0]) == it.id:
-                    loop_src = s.value
-        else:
-            loop_src = it
-        ranges = [src_of(x) for x in ast.walk(loop_src) if isinstance(x, ast.Call) and src_of(x.func) == "range"] if loop_src is not None else []
-        ck.verdict(bool(ranges) and all(r == "range(len(estimators))" for r in ranges), "C08.b", fit, f"loop over {ranges}", "every bucket gets a task", "the task loop does not cover range(len(estimators)): some buckets are never trained")
-        # data arguments forwarded in the callee's order
         callee = repo.func(MOD, "_fit_piecewise_estimator")
         ps = callee.named_params
-        pairs = dict(zip(ps, a))
-        ok = pairs.get("X") == "X" and pairs.get("y") == "y" and pairs.get("sample_weight") == "sample_weight" and pairs.get("association") == "association"
-        ck.verdict(ok, "C08.b", fit, inner, "X, y, sample_weight, association forwarded to their own parameters", f"task arguments {a} do not line up with parameters {ps}")
-        # result stored as estimators_
-        st = enclosing_stmt(c)
+        b = bind(inner, ps)
+        ck.verdict(src_of(f) == "_fit_piecewise_estimator", "C08.b", fit, f"delayed({src_of(f)})", "tasks run _fit_piecewise_estimator", "tasks run another function")
+        m_arg = b.get(ps[1])
+        E = m_arg.value.id if isinstance(m_arg, ast.Subscript) and isinstance(m_arg.value, ast.Name) else None
+        ck.verdict(src_of(b.get(ps[0])) == lv and E is not None and src_of(m_arg.slice) == lv, "C08.b", fit, f"task args ({src_of(b.get(ps[0]))}, {src_of(m_arg)}, ...)", f"task {lv} trains the {lv}-th clone on bucket {lv}", "the estimator handed to a task does not have the index of the bucket it is trained on")
+        # one clone per mapping entry
+        okc = False
+        ds = defs_texts(repo, fit, E) if E else []
+        if len(ds) == 1:
+            try:
+                v = ast.parse(ds[0][1], mode="eval").body
+            except SyntaxError:
+                v = None
+            okc = isinstance(v, ast.ListComp) and ast.unparse(v.elt) == "clone(self.estimator)" and len(v.generators) == 1 and not v.generators[0].ifs and ast.unparse(v.generators[0].iter) in ("self.mapping_", "range(len(self.mapping_))", "self.mapping_.values()", "self.mapping_.keys()", "self.mapping_.items()")
+        ck.verdict(okc, "C08.b", fit, ds[0][0] if ds else "estimators = [...]", "one clone of the local estimator per bucket of the mapping", "the list of local models is not one fresh clone per mapping entry")
+        # the loop covers range(len(estimators))
+        vals = [xt(_strip_progress(x)) for _, x, _ in guarded_values(repo, fit, it, st)]
+        w = want(repo, f"range(len({E}))", fit, st) if E else None
+        ck.verdict(bool(vals) and all(v == w for v in vals), "C08.b", fit, f"task loop over {sorted(set(v[:40] for v in vals))}", "every bucket gets a task", "the task loop does not cover range(len(estimators)): some buckets are never trained")
+        # data arguments forwarded to their own parameters
+        pairs = {k: src_of(v) for k, v in b.items()}
+        ok = pairs.get("X") == "X" and pairs.get("y") == "y" and pairs.get("sample_weight") == "sample_weight"
+        a_t = ex.text(b["association"], fit, st) if "association" in b else ""
+        ck.verdict(ok and (a_t == want(repo, "self._mapping_train(X, self.binner_)[0]", fit, st) or src_of(b.get("association")) == "association"), "C08.b", fit, inner, "X, y, sample_weight, association forwarded to their own parameters", f"task arguments {pairs} do not line up with parameters {ps}")
         ck.verdict(isinstance(st, ast.Assign) and any(is_self_attr(t, "estimators_") for t in st.targets), "C08.b", fit, "self.estimators_ = Parallel(...)", "fitted local models stored in bucket order", "the fitted local models are not stored as estimators_")
     # fallback
-    fb = [s for s in own_nodes(fit.node) if isinstance(s, ast.Assign) and any(is_self_attr(t, "mean_estimator_") for t in s.targets)]
-    if len(fb) != 1:
-        ck.unknown("C08.b", fit, "self.mean_estimator_ = ...", "fallback model not found")
-    else:
-        v = fb[0].value
-        ok = isinstance(v, ast.Call) and isinstance(v.func, ast.Attribute) and v.func.attr == "fit" and src_of(v.func.value) == "clone(self.estimator)" and [src_of(x) for x in v.args[:2]] == ["X", "y"]
-        ck.verdict(ok, "C08.b", fit, fb[0], "fallback is a clone of the local estimator fitted on all rows", "the fallback model is not clone(self.estimator).fit(X, y, ...) on the whole training set")
+    fb = self_attr_value_texts(repo, fit, "mean_estimator_")
+    okf = False
+    if len(fb) == 1:
+        try:
+            v = ast.parse(fb[0][1], mode="eval").body
+        except SyntaxError:
+            v = None
+        if isinstance(v, ast.Call) and isinstance(v.func, ast.Attribute) and v.func.attr == "fit" and ast.unparse(v.func.value) == "clone(self.estimator)":
+            bb = {k: ast.unparse(x) for k, x in bind(v, ["X", "y", "sample_weight"]).items()}
+            okf = bb.get("X") == "X" and bb.get("y") == "y" and bb.get("sample_weight", "sample_weight") == "sample_weight"
+    ck.verdict(okf, "C08.b", fit, fb[0][0] if fb else "self.mean_estimator_ = ...", "fallback is a clone of the local estimator fitted on all rows", "the fallback model is not clone(self.estimator).fit(X, y, ...) on the whole training set")
     # the binner
-    bn = [s for s in own_nodes(fit.node) if isinstance(s, ast.Assign) and len(s.targets) == 1 and src_of(s.targets[0]) == "binner"]
-    ck.verdict(len(bn) == 1 and src_of(bn[0].value) == "clone(self.binner)", "C08.b", fit, bn[0] if bn else "binner = clone(self.binner)", "the binner is a clone fitted in fit", "the binner fitted is not a clone of the hyper-parameter")
-    mt = [s for s in own_nodes(fit.node) if isinstance(s, ast.Assign) and isinstance(s.value, ast.Call) and src_of(s.value.func) == "self._mapping_train"]
-    if mt:
-        a = [src_of(x) for x in mt[0].value.args]
-        t = [src_of(x) for x in (mt[0].targets[0].elts if isinstance(mt[0].targets[0], ast.Tuple) else [mt[0].targets[0]])]
-        ck.verdict(a == ["X", "self.binner_"] and t == ["association", "self.mapping_", "self.leaves_"], "C08.b", fit, mt[0], "buckets computed on the training rows with the fitted binner", "bucket mapping is not computed from (X, self.binner_) into (association, mapping_, leaves_)")
+    bn = self_attr_value_texts(repo, fit, "binner_")
+    ck.verdict(bool(bn) and all(t.startswith("clone(self.binner).fit(X, y") for _, t in bn), "C08.b", fit, bn[0][0] if bn else "self.binner_ = clone(self.binner).fit(X, y)", "the binner is a clone fitted in fit on the training rows", "the binner fitted is not a clone of the hyper-parameter fitted on (X, y)")
+    mt = calls(fit, lambda c: src_of(c.func) == "self._mapping_train")
+    if len(mt) == 1:
+        a = {k: ex.text(v, fit, mt[0]) for k, v in bind(mt[0], ci.methods["_mapping_train"].named_params[1:]).items()}
+        tc = ex.text(mt[0], fit, mt[0])
+        with ex.lenient():
+            mp = [t for _, t in self_attr_value_texts(repo, fit, "mapping_")]
+            lv_ = [t for _, t in self_attr_value_texts(repo, fit, "leaves_")]
+        ck.verdict(a == {"X": "X", "binner": "self.binner_"} and mp == [ctext(f"({tc})[1]")] and lv_ == [ctext(f"({tc})[2]")], "C08.b", fit, mt[0], "buckets computed on the training rows with the fitted binner", "bucket mapping is not computed from (X, self.binner_) into (association, mapping_, leaves_)")
+    else:
+        ck.unknown("C08.b", fit, "self._mapping_train(X, self.binner_)", f"{len(mt)} calls")
     # predict side
     ap = ci.methods["_apply_predict_method"]
     sites = _parallel_sites(ap)
@@ -147,10 +185,15 @@ def check_b(ck, repo):
             ck.verdict(a[:2] == [i, m] and a[2:4] == ["X", "association"], "C08.b", ap, inner, "bucket i is predicted by estimators_[i]", f"prediction task arguments {a} do not pair bucket id and model of the same position")
         else:
             ck.violated("C08.b", ap, inner, "prediction tasks do not enumerate self.estimators_")
-    rets = [src_of(r.value) for r in own_nodes(ap.node) if isinstance(r, ast.Return)]
-    ck.verdict(rets == ["pred"], "C08.b", ap, f"returns {rets}", "the only value returned is the array the per-bucket results were scattered into", f"_apply_predict_method returns {rets}: some path bypasses the per-bucket scatter and the fallback for rows whose bucket was empty at training time (bucket id -1)")
-    assoc = [s for s in own_nodes(ap.node) if isinstance(s, ast.Assign) and src_of(s.targets[0]) == "association"]
-    ck.verdict(len(assoc) == 1 and src_of(assoc[0].value) == "self.transform_bins(X)", "C08.b", ap, assoc[0] if assoc else "association = self.transform_bins(X)", "rows are routed by transform_bins", "rows are not routed by transform_bins(X)")
+    rets = [r for r in own_nodes(ap.node) if isinstance(r, ast.Return)]
+    names = {src_of(r.value) for r in rets if r.value is not None}
+    N = next(iter(names)) if len(names) == 1 and all(isinstance(r.value, ast.Name) for r in rets) else None
+    scat = [x for x in own_nodes(ap.node) if isinstance(x, ast.Assign) and any(isinstance(t, ast.Subscript) and src_of(t.value) == N for t in x.targets)] if N else []
+    ck.verdict(N is not None and len(scat) >= 2, "C08.b", ap, f"returns {sorted(names)}", "the only value returned is the array the per-bucket results and the fallback were scattered into", f"_apply_predict_method returns {sorted(src_of(r.value) for r in rets if r.value is not None)}: some path bypasses the per-bucket scatter and the fallback for rows whose bucket was empty at training time (bucket id -1)")
+    if len(sites) == 1:
+        inner = sites[0][2]
+        a3 = ex.text(inner.args[3], ap, enclosing_stmt(sites[0][0])) if len(inner.args) > 3 else None
+        ck.verdict(a3 == "self.transform_bins(X)", "C08.b", ap, f"association = {a3}", "rows are routed by transform_bins", "rows are not routed by transform_bins(X)")
     ga = [c for c in own_nodes_incl_lambda(ap.node) if isinstance(c, ast.Call) and src_of(c.func) == "getattr"]
     okm = any(len(c.args) == 2 and src_of(c.args[0]) == "self.mean_estimator_" and src_of(c.args[1]) == "method" for c in ga)
     ck.verdict(okm, "C08.b", ap, "getattr(self.mean_estimator_, method)", "uncovered rows use the fallback's method of the same name", "uncovered rows are not sent to getattr(self.mean_estimator_, method)")
@@ -186,8 +229,17 @@ def check_b(ck, repo):
                     ck.verdict(name == mname and table.get(mname) == worker, "C08.b", m, c, f"{cname}.{mname} dispatches method '{name}' to {worker}", f"{cname}.{mname} asks for method {name!r} with worker {worker}: names disagree")
     for mname, wname in table.items():
         w = repo.func(MOD, wname)
-        calls = [c for c in own_nodes_incl_lambda(w.node) if isinstance(c, ast.Call) and isinstance(c.func, ast.Attribute) and c.func.attr in table]
-        ck.verdict(len(calls) == 1 and calls[0].func.attr == mname and src_of(calls[0].func.value) == w.named_params[1], "C08.b", w, calls[0] if calls else wname, f"worker calls est.{mname}", f"worker {wname} does not call the bucket model's {mname}")
+        rs = returns(repo, w)
+        okw = False
+        if rs:
+            try:
+                last = ast.parse(rs[-1][1], mode="eval").body
+            except SyntaxError:
+                last = None
+            if isinstance(last, ast.Tuple) and len(last.elts) == 2 and isinstance(last.elts[1], ast.Call) and isinstance(last.elts[1].func, ast.Attribute):
+                cl = last.elts[1]
+                okw = cl.func.attr == mname and ast.unparse(cl.func.value) == w.named_params[1]
+        ck.verdict(okw, "C08.b", w, rs[-1][0] if rs else wname, f"worker calls est.{mname}", f"worker {wname} does not call the bucket model's {mname}")
 
 
 def check_c(ck, repo):
@@ -274,71 +326,189 @@ def _shared_element(fi: FunctionInfo, name: str):
 LOSSY_REDUCERS = {"argmax", "argmin", "max", "min", "sum", "mean", "any", "all", "count_nonzero", "first", "nonzero"}
 
 
+def _keyfun(x: ast.AST, rowvars=()) -> Optional[str]:
+    """text of a key expression as a function of the row it encodes: the loop
+    term (`__it__(rows, ...)`) or the comprehension variable is replaced by ROW;
+    returns (key function, rows text)"""
+    rows = []
+
+    class R(ast.NodeTransformer):
+        def visit_Call(self, n):
+            if isinstance(n.func, ast.Name) and n.func.id == "__it__":
+                rows.append(ast.unparse(n.args[0]))
+                return ast.Name(id="ROW", ctx=ast.Load())
+            return self.generic_visit(n)
+
+        def visit_Name(self, n):
+            if n.id in rowvars:
+                return ast.Name(id="ROW", ctx=ast.Load())
+            return n
+
+    from engine.util import clone_ast
+
+    y = R().visit(clone_ast(x))
+    return ast.unparse(_norm.canon(y, rename=False)), (rows[0] if rows else None)
+
+
+def _init_unassigned(repo, fn: FunctionInfo, A: str):
+    """every definition of the association array leaves all rows at -1 before
+    any row is given a bucket: numpy.full(shape, -1) or zeros/empty followed by
+    A[:] = -1 in the same block"""
+    ex = expander(repo)
+    res = []
+    for s in sorted((x for x in own_nodes(fn.node) if isinstance(x, ast.Assign) and len(x.targets) == 1 and src_of(x.targets[0]) == A), key=lambda x: x.lineno):
+        t = ex.text(s.value, fn, s).replace(" ", "")
+        full = t.startswith("numpy.full(") and (t.endswith(",-1)") or t.endswith(",-1.0)") or ",-1," in t or ",-1.0," in t or "fill_value=-1" in t)
+        neg = t.startswith("-numpy.ones(")
+        ok = full or neg
+        if not ok:
+            blk = getattr(s, "_parent", None)
+            body = None
+            for f in ("body", "orelse", "finalbody"):
+                b = getattr(blk, f, None)
+                if isinstance(b, list) and any(x is s for x in b):
+                    body = b
+            after = body[body.index(s) + 1:] if body else []
+            for x in after:
+                if isinstance(x, ast.Assign) and src_of(x.targets[0]) in (f"{A}[:]", f"{A}[...]") and ex.text(x.value, fn, x) in ("-1", "-1.0"):
+                    ok = True
+                    break
+                if isinstance(x, ast.Expr) and src_of(x.value).replace(" ", "") in (f"{A}.fill(-1)", f"{A}.fill(-1.0)"):
+                    ok = True
+                    break
+                if isinstance(x, (ast.For, ast.While)) or (isinstance(x, ast.Assign) and any(isinstance(t_, ast.Subscript) and src_of(t_.value) == A for t_ in x.targets)):
+                    break
+        res.append((s, ok))
+    return res
+
+
 def check_e(ck, repo):
     ci = repo.cls(MOD, "PiecewiseEstimator")
     mt, tb = ci.methods["_mapping_train"], ci.methods["transform_bins"]
+    fit = ci.methods["fit"]
+    ex = expander(repo)
+    # the binner handed to _mapping_train is the fitted one
+    mcall = calls(fit, lambda c: src_of(c.func) == "self._mapping_train")
+    binner_arg = None
+    if len(mcall) == 1:
+        binner_arg = ex.text(bind(mcall[0], mt.named_params[1:]).get("binner"), fit, mcall[0]) if "binner" in bind(mcall[0], mt.named_params[1:]) else None
+    p_binner = mt.named_params[2] if len(mt.named_params) > 2 else "binner"
 
-    def branch(fn, attr):
-        for s in own_nodes(fn.node):
-            if isinstance(s, ast.If) and isinstance(s.test, ast.Call) and src_of(s.test.func) == "hasattr" and len(s.test.args) == 2 and const_value(s.test.args[1]) == attr:
-                return s
-        return None
+    def subst(t: Optional[str]) -> Optional[str]:
+        """_mapping_train's binner parameter is the fitted binner"""
+        if t is None or binner_arg is None:
+            return t
+        import re
+        return re.sub(r"(?<![\w.])" + re.escape(p_binner) + r"(?![\w])", binner_arg, t)
 
-    # tree branch: same mask expression, same densification
-    for attr, what in (("tree_", "tree"), ("transform", "transformer")):
-        b1, b2 = branch(mt, attr), branch(tb, attr)
-        if b1 is None or b2 is None:
-            ck.unknown("C08.e", mt, f"hasattr(binner, '{attr}')", "binner-kind branch not found in both functions")
-            continue
-        if what == "tree":
-            k1 = [s for s in ast.walk(ast.Module(body=b1.body, type_ignores=[])) if isinstance(s, ast.Assign) and src_of(s.targets[0]) == "ind"]
-            k2 = [s for s in ast.walk(ast.Module(body=b2.body, type_ignores=[])) if isinstance(s, ast.Assign) and src_of(s.targets[0]) == "ind"]
-            same = [src_of(s.value) for s in k1] == [src_of(s.value) for s in k2] and len(k1) >= 1
-            ck.verdict(same, "C08.e", tb, f"ind = {[src_of(s.value) for s in k2]}", "leaf membership is decided by the same expressions at fit and predict", f"fit selects a leaf's rows with {[src_of(s.value) for s in k1]} but predict with {[src_of(s.value) for s in k2]}")
-            # fit iterates over leaves, predict over self.leaves_; mapping key is the leaf id j
-            l1 = [x for x in ast.walk(ast.Module(body=b1.body, type_ignores=[])) if isinstance(x, ast.For) and src_of(x.iter) == "leaves"]
-            l2 = [x for x in ast.walk(ast.Module(body=b2.body, type_ignores=[])) if isinstance(x, ast.For) and src_of(x.iter) == "self.leaves_"]
-            ck.verdict(len(l1) == 1 and len(l2) == 1 and src_of(l1[0].target) == src_of(l2[0].target), "C08.e", tb, "for j in leaves / self.leaves_", "both sides enumerate the fitted tree's leaves", "fit and predict do not enumerate the same leaf list")
-            if l1 and l2:
-                j = src_of(l1[0].target)
-                st1 = [src_of(s) for s in ast.walk(l1[0]) if isinstance(s, ast.Assign)]
-                st2 = [src_of(s) for s in ast.walk(l2[0]) if isinstance(s, ast.Assign)]
-                ck.verdict(f"mapping[{j}] = ntree" in st1 and "association[ind] = ntree" in st1, "C08.e", mt, f"mapping[{j}] = ntree; association[ind] = ntree", "fit stores bucket id under the leaf id and labels the leaf's rows with it", "fit does not store the bucket id under the leaf id it labels rows with")
-                ck.verdict(f"association[ind] = self.mapping_.get({j}, -1)" in st2, "C08.e", tb, f"association[ind] = self.mapping_.get({j}, -1)", "predict looks the leaf id up in the same mapping, unknown -> -1", "predict does not look up mapping_.get(leaf id, -1)")
-                inc = any(isinstance(s, ast.AugAssign) and src_of(s) == "ntree += 1" for s in ast.walk(l1[0]))
-                ck.verdict(inc, "C08.e", mt, "ntree += 1", "bucket ids are consecutive", "bucket ids are not incremented per non-empty leaf")
-            # decision path from the fitted binner on the given rows
-            d1 = [src_of(s.value) for s in ast.walk(ast.Module(body=b1.body, type_ignores=[])) if isinstance(s, ast.Assign) and src_of(s.targets[0]) == "dec_path"]
-            d2 = [src_of(s.value) for s in ast.walk(ast.Module(body=b2.body, type_ignores=[])) if isinstance(s, ast.Assign) and src_of(s.targets[0]) == "dec_path"]
-            ck.verdict(d1 == d2 == ["self.binner_.decision_path(X)"], "C08.e", tb, f"dec_path = {d2}", "both use the fitted binner's decision path of the rows at hand", f"decision paths differ: {d1} vs {d2}")
-        else:
-            def keys(b):
-                return [src_of(s.value) for s in ast.walk(ast.Module(body=b.body, type_ignores=[])) if isinstance(s, ast.Assign) and src_of(s.targets[0]) == "d"]
-            k1, k2 = keys(b1), keys(b2)
-            ck.verdict(len(k1) >= 1 and len(k2) >= 1 and set(k1) == set(k2) and len(set(k1)) == 1, "C08.e", tb, f"d = {sorted(set(k2))}", "bucket keys of the transformer binner are built by one expression everywhere", f"fit builds keys with {sorted(set(k1))}, predict with {sorted(set(k2))}: no row finds its bucket")
-            # the key must encode the whole transformed row (injective): no reducer keeps one position only
-            for b in (b1, b2):
-                for s_ in ast.walk(ast.Module(body=b.body, type_ignores=[])):
-                    if isinstance(s_, ast.Assign) and src_of(s_.targets[0]) == "d":
-                        red = [c for c in ast.walk(s_.value) if isinstance(c, ast.Call) and src_of(c.func).split(".")[-1] in LOSSY_REDUCERS]
-                        sub1 = [x for x in ast.walk(s_.value) if isinstance(x, ast.Subscript) and isinstance(x.slice, ast.Constant)]
-                        ck.verdict(not red and not sub1, "C08.e", mt if b is b1 else tb, s_, "bucket key keeps every entry of the binner's output row", f"the bucket key {src_of(s_.value)[:60]!r} reduces the binner's output row to one number: distinct discretizer cells share a bucket, so rows are not routed to exactly their own cell's model")
-            g1 = [src_of(s) for s in ast.walk(ast.Module(body=b1.body, type_ignores=[])) if isinstance(s, ast.Assign) and "mapping.get(" in src_of(s)]
-            g2 = [src_of(s) for s in ast.walk(ast.Module(body=b2.body, type_ignores=[])) if isinstance(s, ast.Assign) and "mapping_.get(" in src_of(s)]
-            ck.verdict(g1 == ["association[i] = mapping.get(d, -1)"] and g2 == ["association[i] = self.mapping_.get(d, -1)"], "C08.e", tb, f"{g2}", "row i gets the bucket of its own key, unknown -> -1, on both sides", f"key lookup differs or does not default to -1: {g1} / {g2}")
-            t1 = [src_of(s.value) for s in ast.walk(ast.Module(body=b1.body, type_ignores=[])) if isinstance(s, ast.Assign) and src_of(s.targets[0]) == "tr"]
-            t2 = [src_of(s.value) for s in ast.walk(ast.Module(body=b2.body, type_ignores=[])) if isinstance(s, ast.Assign) and src_of(s.targets[0]) == "tr"]
-            ck.verdict(t1 == t2 == ["binner.transform(X)"], "C08.e", tb, f"tr = {t2}", "both transform the rows at hand with the fitted binner", f"transforms differ: {t1} vs {t2}")
-    # default -1 initialisation in every branch
+    # ---- transformer binner: one key encoding everywhere
+    keys = []  # (function, node, key function text, rows text, kind)
     for fn in (mt, tb):
-        inits = [src_of(s) for s in own_nodes(fn.node) if isinstance(s, ast.Assign) and src_of(s.targets[0]) == "association[:]"]
-        ck.verdict(len(inits) == 2 and all(x == "association[:] = -1" for x in inits), "C08.e", fn, f"{inits}", "rows start unassigned (-1) in both binner kinds", "association is not initialised to -1 in both branches: uncovered rows get a bucket id")
-    # leaf predicate shared with mltree (two confirmed forms)
-    lp = [c for c in own_nodes_incl_lambda(mt.node) if isinstance(c, ast.ListComp) and "children_left" in src_of(c)]
-    ok = len(lp) == 1 and src_of(lp[0].generators[0].ifs[0]) in ("tree.children_left[i] <= i and tree.children_right[i] <= i", "tree.children_left[i] == TREE_LEAF") and src_of(lp[0].generators[0].iter) == "range(len(tree.children_left))"
-    ck.verdict(ok, "C08.e", mt, lp[0] if lp else "leaves = [...]", "leaves enumerated with the shared leaf predicate over all nodes", "leaf enumeration does not use the shared leaf predicate over range(len(children_left))")
-    binner_src = [src_of(s.value) for s in own_nodes(tb.node) if isinstance(s, ast.Assign) and src_of(s.targets[0]) == "binner"]
-    ck.verdict(binner_src == ["self.binner_"], "C08.e", tb, f"binner = {binner_src}", "predict routes with the fitted binner", "transform_bins does not use the fitted binner_")
+        for c in own_nodes_incl_lambda(fn.node):
+            if isinstance(c, ast.Call) and isinstance(c.func, ast.Attribute) and c.func.attr == "get" and src_of(c.func.value) in ("mapping", "self.mapping_") and c.args:
+                st = stmt_of(c)
+                kx = ex.norm_expr(c.args[0], fn, st)
+                kf, rows = _keyfun(kx)
+                if rows is None:
+                    continue  # the tree branch looks leaf ids up, not row encodings
+                if "decision_path" in kf or kf == "ROW":
+                    continue
+                keys.append((fn, c, kf, subst(rows), "lookup"))
+                d = ex.text(c.args[1], fn, st) if len(c.args) > 1 else None
+                ck.verdict(d == "-1", "C08.e", fn, c, "unknown key -> -1", f"key lookup defaults to {d}, not -1: rows of an unseen cell get a bucket id")
+            if isinstance(c, ast.Call) and isinstance(c.func, ast.Attribute) and c.func.attr == "add" and c.args and fn is mt:
+                st = stmt_of(c)
+                kf, rows = _keyfun(ex.norm_expr(c.args[0], fn, st))
+                if rows is not None:
+                    keys.append((fn, c, kf, subst(rows), "collect"))
+            if isinstance(c, (ast.SetComp, ast.ListComp, ast.GeneratorExp)) and fn is mt and len(c.generators) == 1 and not c.generators[0].ifs:
+                g = c.generators[0]
+                rv = {n.id for n in ast.walk(g.target) if isinstance(n, ast.Name)}
+                it_t = ex.text(g.iter, fn, stmt_of(c))
+                if "transform(" in it_t:
+                    kf, _ = _keyfun(ex.norm_expr(c.elt, fn, stmt_of(c)), rv)
+                    keys.append((fn, c, kf, subst(it_t), "collect"))
+    kinds = {(fn.name, k) for fn, _, _, _, k in keys}
+    need = {("_mapping_train", "collect"), ("_mapping_train", "lookup"), ("transform_bins", "lookup")}
+    if not need <= kinds:
+        ck.unknown("C08.e", tb, "bucket keys of the transformer binner", f"key sites found: {sorted(kinds)}; expected {sorted(need)}")
+    else:
+        kfs = {k[2] for k in keys}
+        rws = {k[3] for k in keys}
+        ck.verdict(len(kfs) == 1, "C08.e", tb, f"key = {sorted(kfs)[0][:70]}", "bucket keys of the transformer binner are built by one expression everywhere", f"fit and predict build bucket keys with different expressions {sorted(kfs)}: no row finds its bucket")
+        ck.verdict(rws == {"self.binner_.transform(X)"}, "C08.e", tb, f"rows = {sorted(rws)}", "the rows encoded are the fitted binner's transform of the rows at hand", f"key rows come from {sorted(rws)}, not from self.binner_.transform(X) on both sides")
+        for kf in sorted(kfs):
+            try:
+                kv = ast.parse(kf, mode="eval").body
+            except SyntaxError:
+                kv = None
+            red = [c_ for c_ in ast.walk(kv) if isinstance(c_, ast.Call) and ast.unparse(c_.func).split(".")[-1] in LOSSY_REDUCERS] if kv is not None else []
+            sub1 = [x for x in ast.walk(kv) if isinstance(x, ast.Subscript) and isinstance(x.slice, ast.Constant)] if kv is not None else []
+            ck.verdict(not red and not sub1, "C08.e", mt, f"key function {kf[:60]}", "bucket key keeps every entry of the binner's output row", f"the bucket key {kf[:60]!r} reduces the binner's output row to one number: distinct discretizer cells share a bucket, so rows are not routed to exactly their own cell's model")
+        # mapping: key -> position in the sorted distinct keys (bucket ids 0..n-1)
+        # row i gets the bucket of its own key
+        for fn, c, kf, rows, kind in keys:
+            if kind != "lookup":
+                continue
+            st = stmt_of(c)
+            ok = isinstance(st, ast.Assign) and isinstance(st.targets[0], ast.Subscript) and st.value is c
+            if ok:
+                ix = ex.norm_expr(st.targets[0].slice, fn, st)
+                ok = isinstance(ix, ast.Call) and isinstance(ix.func, ast.Name) and ix.func.id == "__it__" and "'idx'" in ast.unparse(ix.args[1]) and subst(ast.unparse(ix.args[0])) == rows
+            ck.verdict(ok, "C08.e", fn, st, "row i gets the bucket of its own key", "the bucket looked up for a row's key is not stored at that row's position")
+    # ---- tree binner: same leaf membership, leaf id is the mapping key
+    masks = {}
+    for fn in (mt, tb):
+        for s_ in own_nodes(fn.node):
+            if isinstance(s_, ast.Assign) and len(s_.targets) == 1 and isinstance(s_.targets[0], ast.Subscript) and isinstance(s_.targets[0].value, ast.Name):
+                mx = ex.norm_expr(s_.targets[0].slice, fn, s_)
+                t = ast.unparse(mx)
+                if "decision_path" not in t:
+                    continue
+                kf, leaf_src = _keyfun(mx)
+                val = ex.norm_expr(s_.value, fn, s_)
+                masks[fn.name] = (s_, subst(kf), leaf_src, val)
+    if set(masks) != {"_mapping_train", "transform_bins"}:
+        ck.unknown("C08.e", tb, "leaf membership masks", f"found in {sorted(masks)}")
+    else:
+        (s1, m1, l1, v1), (s2, m2, l2, v2) = masks["_mapping_train"], masks["transform_bins"]
+        ck.verdict(m1 == m2 and "self.binner_.decision_path(X)" in m1, "C08.e", tb, f"leaf mask {m2[:70]}", "leaf membership is decided by the same expression of the fitted binner's decision path at fit and predict", f"fit selects a leaf's rows with {m1} but predict with {m2}")
+        ck.verdict(l2 == "self.leaves_", "C08.e", tb, f"predict enumerates {l2}", "predict enumerates the leaves stored at fit", "predict does not enumerate self.leaves_")
+        # predict: association[mask] = self.mapping_.get(<leaf>, -1)
+        okp = isinstance(v2, ast.Call) and ast.unparse(v2.func) == "self.mapping_.get" and len(v2.args) == 2 and _keyfun(v2.args[0])[0] == "ROW" and ast.unparse(v2.args[1]) == "-1"
+        ck.verdict(okp, "C08.e", tb, s2, "predict looks the leaf id up in the mapping, unknown -> -1", "predict does not look up mapping_.get(leaf id, -1)")
+        # fit: mapping[<leaf>] = n and association[mask] = n, n incremented in the same block
+        from .c07 import _effects, _block_of
+        eff = _effects(repo, mt, _block_of(s1), s1)
+        setm = [e for e in eff if e[0] == "set" and e[1] == "mapping"]
+        seta = [e for e in eff if e[0] == "set" and e[4] is s1]
+        inc = [e for e in eff if e[0] == "ninc" and e[3] == 1]
+        okf = len(setm) == 1 and len(seta) == 1 and setm[0][3] == seta[0][3] and len(inc) == 1 and inc[0][1] == setm[0][6] and _keyfun(ast.parse(setm[0][2], mode="eval").body)[0] == "ROW"
+        ck.verdict(okf, "C08.e", mt, s1, "fit stores a fresh consecutive bucket id under the leaf id and labels the leaf's rows with it", "fit does not store the bucket id under the leaf id it labels rows with, or ids are not consecutive")
+        # the leaf list: nodes without children of the fitted tree, returned as leaves_
+        lp = [c for c in own_nodes_incl_lambda(mt.node) if isinstance(c, ast.ListComp) and "children_left" in src_of(c)]
+        okl = False
+        if len(lp) == 1 and len(lp[0].generators) == 1 and len(lp[0].generators[0].ifs) == 1:
+            g = lp[0].generators[0]
+            v = src_of(g.target)
+            cond = ex.text(g.ifs[0], mt, stmt_of(lp[0]))
+            tree = subst("binner.tree_") if p_binner == "binner" else subst(f"{p_binner}.tree_")
+            forms = {ctext(f"{t_}.children_left[{v}] <= {v} and {t_}.children_right[{v}] <= {v}") for t_ in ("binner.tree_", "self.binner_.tree_", "tree")} | {ctext(f"{t_}.children_left[{v}] == TREE_LEAF") for t_ in ("binner.tree_", "self.binner_.tree_", "tree")} | {ctext(f"{t_}.children_left[{v}] == -1") for t_ in ("binner.tree_", "self.binner_.tree_", "tree")}
+            it_ = ex.text(g.iter, mt, stmt_of(lp[0]))
+            okl = cond in forms and src_of(lp[0].elt) == v and it_ in {ctext(f"range(len({t_}.children_left))") for t_ in ("binner.tree_", "self.binner_.tree_", "tree")} | {ctext(f"range({t_}.node_count)") for t_ in ("binner.tree_", "self.binner_.tree_", "tree")}
+        ck.verdict(okl, "C08.e", mt, lp[0] if lp else "leaves = [...]", "leaves enumerated with the shared leaf predicate over all nodes", "leaf enumeration does not use the shared leaf predicate over all nodes of the tree")
+    # ---- rows start unassigned in every branch of both functions
+    for fn in (mt, tb):
+        rets_ = [r for r in own_nodes(fn.node) if isinstance(r, ast.Return) and r.value is not None]
+        A = None
+        for r in rets_:
+            v = r.value.elts[0] if isinstance(r.value, ast.Tuple) else r.value
+            if isinstance(v, ast.Name):
+                A = v.id
+        res = _init_unassigned(repo, fn, A) if A else []
+        ck.verdict(len(res) >= 2 and all(ok for _, ok in res), "C08.e", fn, f"{fn.name}: {len(res)} allocations of the bucket ids", "rows start unassigned (-1) in both binner kinds", "association is not initialised to -1 in both branches: uncovered rows get a bucket id")
+    bx = [t for _, t in defs_texts(repo, tb, "binner")] if any(isinstance(n, ast.Name) and n.id == "binner" for n in ast.walk(tb.node)) else ["self.binner_"]
+    ck.verdict(bx == ["self.binner_"], "C08.e", tb, f"binner = {bx}", "predict routes with the fitted binner", "transform_bins does not use the fitted binner_")
 
 
 def run(ck):
